@@ -264,6 +264,57 @@ def unknown_symbol_history(h: Harness, rng):
     h.seen("unknown-symbol-history", nontrivial=failed > 0 and ok > 0)
 
 
+def two_level_context_history(h: Harness, rng):
+    """the binding-context language with a two-level hierarchy (the productions of the body type are themselves abstract) and the
+    context handed down through `initial_values`: a variable -- in one variant the atoms' ONLY production -- is infeasible in the
+    empty context, so whole sub-symbols fail and creation retries; no operation, failing or not, changes the grammar"""
+    import ctxgrammar
+    from linear import GE, safe
+    for only_var in (False, True):
+        g = ctxgrammar.two_level_context_grammar(only_var)
+
+        def snap():
+            return {"alts": sorted((k.__name__, [c.__name__ for c in v]) for k, v in g.alternatives.items()),
+                    "dist": sorted((getattr(k, "__name__", str(k)), v) for k, v in g.distanceToTerminal.items()),
+                    "rec": sorted(getattr(k, "__name__", str(k)) for k in g.recursive_prods),
+                    "nodes": sorted(getattr(k, "__name__", str(k)) for k in g.all_nodes),
+                    "weights": sorted((getattr(k, "__name__", str(k)), w) for k, w in g.get_weights().items())}
+        first = snap()
+        r = NativeRandomSource(rng.randrange(10**6))
+        ok = failed = 0
+        pool = []
+        for k in range(h.n(50, 300)):
+            d = rng.choice([3, 4, 5, 6])
+            kind = rng.choice(["grow", "full", "pigrow"])
+            what = rng.choice(["create", "create", "map", "mutate", "crossover"])
+            if what == "map":
+                rep = GE(g, synth.make_decider(kind, d, r, g), gene_length=64)
+                st, _ = safe(lambda: rep.genotype_to_phenotype(rep.create_genotype(r)))
+            else:
+                rep = TreeBasedRepresentation(g, synth.make_decider(kind, d, r, g))
+                if what == "create" or len(pool) < 2:
+                    st, v = safe(lambda: rep.create_genotype(r))
+                    if st == "ok":
+                        pool.append(v)
+                elif what == "mutate":
+                    st, _ = safe(lambda: rep.mutate(r, rng.choice(pool)))
+                else:
+                    st, _ = safe(lambda: rep.crossover(r, rng.choice(pool), rng.choice(pool)))
+            ok += st == "ok"
+            failed += st == "err"
+            now = snap()
+            if now != first:
+                diff = next(key for key in first if first[key] != now[key])
+                h.fail("create_node", "grammar-modified",
+                       f"operation #{k} ({what}, {kind}, depth {d}; {st}) on the two-level binding-context grammar"
+                       f"{' (variables are the only atoms)' if only_var else ''} changed Grammar.{diff}: {first[diff]} -> {now[diff]}",
+                       ["two-level-context", only_var, k])
+                break
+        h.count("two-level-context-history:ok-operations", ok)
+        h.count("two-level-context-history:failing-operations", failed)
+        h.seen(f"two-level-context-history:{only_var}", nontrivial=ok > 0)
+
+
 def refinement_parameters_history(h: Harness, rng):
     """a refinement object that lives as long as the grammar and has parameters of its own (a WeightedStringHandler with its
     probability matrix): creating and mapping never rewrites them, and the set of creatable strings stays what the matrix
@@ -338,6 +389,11 @@ def corpus():
     # meet it fail, and must leave the grammar as it was
     out.append(gram.Spec([C("A0", True, None), C("Leaf", False, 0, [("k", ("ann", "int", ("intRange", 0, 3)))]), C("Plugin", True, None),
                           C("Ext", False, 0, [("p", ("cls", 2))]), C("Neg", False, 0, [("e", ("cls", 0))])], 0, [1, 3, 4, 2]))
+    # a Union whose alternative WRAPS a recursive symbol (a list of it, a bounded list, a tuple): the wrapper is not a symbol of
+    # the grammar, and asking whether such an alternative is recursive must not make it one
+    for wrapped in (("list", ("cls", 0)), ("ann", ("list", ("cls", 0)), ("listSize", 1, 2)), ("tuple", ("cls", 0), "int")):
+        out.append(gram.Spec([C("A0", True, None), C("Leaf", False, 0, [("k", ("ann", "int", ("intRange", 0, 3)))]),
+                              C("Node", False, 0, [("u", ("union", ("cls", 1), wrapped))]), C("Neg", False, 0, [("e", ("cls", 0))])], 0, [1, 2, 3]))
     return out
 
 
@@ -346,6 +402,7 @@ def run(h: Harness):
     retry_model(h)
     unknown_symbol_history(h, rng)
     refinement_parameters_history(h, rng)
+    two_level_context_history(h, rng)
     for spec in corpus():
         for _ in range(3):
             history(h, spec, rng)
